@@ -51,8 +51,8 @@ fn scenarios() -> Vec<&'static dyn Scenario> {
 fn meta(prop: &str) -> (&'static str, Vec<&'static str>, serde_json::Value) {
     let components = serde_json::json!({
         "real": ["rasn_compiler lexer, linker/validator, rasn and TypeScript generators, Compiler builder (built from /repo's working tree, feature verif-hooks)", "Rust std I/O", "kernel tmpfs under /dev/shm"],
-        "stub": [],
-        "simulated_seams": ["libc I/O entry points (LD_PRELOAD libsimio.so: outcomes decided by the fault plan)", "getrandom (seeded entropy for RandomState)", "thread scheduling (baton over real OS threads)"],
+        "stub": if matches!(prop, "C20" | "C10" | "C11") { vec!["rustfmt: fake-rustfmt/fake_rustfmt.c, a deterministic stand-in (modes ok, slurp, exit1/2/3, die:<k>, badutf8, noread, failif:<n>; stdin/stdout and in-place file mode) — used by the scenarios fmt (C20), formatter-faults (C10) and formatter (C11) only"] } else { vec![] },
+        "simulated_seams": ["libc I/O entry points (LD_PRELOAD libsimio.so: outcomes decided by the fault plan)", "getrandom (seeded entropy for RandomState)", "thread scheduling (baton over real OS threads)", "heap allocator (global allocator of the simulator binary: allocations of the code under test as yield points, scenario fine-grain of C11)", "rustfmt lookup ($CARGO_HOME/bin/rustfmt, $CARGO): the stand-in fake-rustfmt where a scenario installs it"],
         "not_run": ["the rasn runtime crate (no claimed property needs generated code to be compiled)"]
     });
     match prop {
@@ -72,11 +72,12 @@ fn meta(prop: &str) -> (&'static str, Vec<&'static str>, serde_json::Value) {
         "C08" => (
             "exploration",
             vec![
-                "SLICE: only storage-fault images of valid sources are explored (truncation at any byte, bit flips, sector zero-fill/duplicate/swap, splices of two files) — not arbitrary byte soup, not grammar-generated MACRO/CLASS/TIME/parameterization notation, not cyclic references: those need an input fuzzer, which is another technique family",
+                "SLICE: only storage-fault images of valid sources are explored (truncation at any byte, bit flips, sector zero-fill/duplicate/swap, splices of two files) — not arbitrary byte soup and not GENERATED exotic notation: those need an input fuzzer, which is another technique family; hand-written bases bring MACRO/CLASS/TIME/parameterization notation, reference cycles of every kind, rejected notation and boundary literals into the slice (one run in eight)",
+                "types nested some 250 levels deep exhaust a 2 MiB stack in the recursive-descent lexer and the linker (SIGSEGV): seen while probing, in no base of this check (no real module nests deeper than a dozen levels); recorded in DESIGN 10.2",
                 "a literal is always valid UTF-8 (images are converted lossily); invalid UTF-8 reaches the compiler only through file delivery",
                 "non-termination is detected by a CPU-time budget per image (RLIMIT_CPU re-armed before each image): 60 s + 1200 s * (n/100 KB)^2 against a typical 1-200 ms; the quadratic term exists because the lexer's block-comment scanner is quadratic in the length of an unterminated comment (about 100 s for 95 KB), which is slow but terminates and is therefore not a violation; images are cut at 48 KB (quick) / 160 KB (thorough)",
             ],
-            serde_json::json!({"components": components, "rule": "a case = (valid base source, storage-fault image, delivery, backend): bases are the 892 corpus files (walked systematically) and generated module sets; images are truncations (biased to the last bytes), single-bit flips, 512-byte sector zero-fill/duplication/swap and splices; delivered as a literal or as a file read through the simulated disk (truncation/flip/zero-fill applied by the seam to the bytes in flight); both backends; every error and warning rendered with Display and contextualize. distinct = distinct (base hash, image, delivery); non-trivial = the image differs from the base"}),
+            serde_json::json!({"components": components, "rule": "a case = (valid base source, storage-fault image, delivery, backend): bases are the 892 corpus files (walked systematically), generated module sets and (one run in eight) hand-written bases from dsim/samples (notation, notation 2, cycles, 42 rejected-notation inputs, 68 boundary-literal inputs); images are truncations (biased to the last bytes), single-bit flips, 512-byte sector zero-fill/duplication/swap and splices; delivered as a literal or as a file read through the simulated disk (truncation/flip/zero-fill applied by the seam to the bytes in flight); both backends; every error and warning rendered with Display and contextualize. distinct = distinct (base hash, image, delivery); non-trivial = the image differs from the base"}),
         ),
         "C12" => (
             "exploration",
@@ -85,18 +86,21 @@ fn meta(prop: &str) -> (&'static str, Vec<&'static str>, serde_json::Value) {
                 "the stand-alone reference of a module is compile_to_string() of the module plus its transitive import cone in a pristine process",
                 "name mangling is not re-implemented: which Rust identifiers an assignment produces is learned by leave-one-out compilation of the exporting module",
                 "generated module sets keep top-level names, enumerals and named numbers disjoint across modules, except in the dedicated xmod-* scenarios, where a violation is classified by re-running the same plan with the shared spelling renamed apart",
+                "tag-keywords: only the tags of an assignment's own type and of its DIRECT components are spelled out — the compiler leaves the tags of nested anonymous types at IMPLICIT whatever the module default says (a defect against C03, which is not decided here), so spelling those out would change the EXPLICIT module itself; only EXPLICIT is spelled out because `[n] IMPLICIT T` is illegal for CHOICE and open types",
             ],
-            serde_json::json!({"components": components, "rule": "deliveries: a case = a run of 1..3 compilations (same set, its sibling, or another set; 2..5 modules with differing TAGS/EXTENSIBILITY defaults and import graphs) through a Hist<B> wrapper that replays, duplicates and reorders generate_module deliveries; every delivery is compared with the same call on a fresh backend. subsets: a case = a module set and 3..6 sub-multisets (cone of a module + random neighbours + duplicates, random order, literals/one literal/files, random builder path); every present module's block is compared token-for-token with its block in the stand-alone compilation, and its use declarations with the IMPORTS clauses. distinct = distinct (set, compilations or delivery stream) signatures; non-trivial = at least one block / delivery comparison was made"}),
+            serde_json::json!({"components": components, "rule": "deliveries: a case = a run of 1..3 compilations (same set, its sibling, or another set; 2..5 modules with differing TAGS/EXTENSIBILITY defaults and import graphs) through a Hist<B> wrapper that replays, duplicates and reorders generate_module deliveries; every delivery is compared with the same call on a fresh backend. subsets: a case = a module set and 3..6 sub-multisets (cone of a module + random neighbours + duplicates, random order, literals/one literal/files, random builder path); every present module's block is compared token-for-token with its block in the stand-alone compilation, and its use declarations with the IMPORTS clauses. tag-keywords: a case = a module set with at least one EXPLICIT TAGS module and one other, compiled as written and with EXPLICIT spelled out after every keyword-less first-level tag of the EXPLICIT modules; every module block must be token-identical in the two. distinct = distinct (set, compilations or delivery stream) signatures; non-trivial = at least one block / delivery comparison was made"}),
         ),
         "C17" => (
             "exploration",
             vec![
                 "SLICE: stored-byte corruption only (replacement by a byte that starts no ASN.1 token, 512-byte zero-fill, truncation inside an assignment) at positions the generator's token map classifies as strict; deletion or replacement by another valid token is a typo model, not a fault model, and is not decided here",
                 "a result of Ok, or an Err that is not a syntax (matching) error, is not judged",
-                "whether a leading comment counts as the first token of the malformed assignment is resolved in favour of the code (either is accepted)",
+                "a comment is not a token: the lower bound is the first byte of the malformed unit's own first token",
+                "two-byte corruptions (comma blanked + later damage): the upper bound is the identifier that follows the lost comma; when the later damage sits inside a DEFAULT value the unchanged tree reports it there (known finding lenient-comma-then-damaged-default, identified by that context)",
+                "histories: the earlier compilations of a thread are not judged themselves; a panic in one of them makes the case inconclusive",
                 "when contextualize flags no line at all (the failing line is blank) only Display, the contextualize header and the structured line are compared",
             ],
-            serde_json::json!({"components": components, "rule": "a case = (generated source of 1..3 modules with LF/CRLF and comments, corruption, delivery, backend): small sources (<= 4 assignments per module) are swept exhaustively over every strict byte position, larger ones sampled; every unit (header, assignment, END) is also hit at its first and last strict byte; plus sector zero-fills and truncations inside assignments; delivered as a literal or as a file whose bytes the seam corrupts in flight. distinct = distinct (source hash, corruption, delivery, backend); non-trivial = the compiler returned a syntax error and all five clauses were evaluated"}),
+            serde_json::json!({"components": components, "rule": "a case = (generated source of 1..3 modules with LF/CRLF and comments, corruption, delivery, backend): small sources (<= 4 assignments per module) are swept exhaustively over every strict byte position, larger ones sampled; every unit (header, assignment, END) is also hit at its first and last strict byte; plus sector zero-fills, truncations inside assignments and at unit boundaries, damaged comment terminators, two-byte corruptions, and (one case in twenty-five) a history of up to 140 earlier compilations on the same thread; delivered as a literal or as a file whose bytes the seam corrupts in flight. distinct = distinct (source hash, corruption, delivery, backend); non-trivial = the compiler returned a syntax error and all five clauses were evaluated"}),
         ),
         "C10" => (
             "exploration",
@@ -104,17 +108,18 @@ fn meta(prop: &str) -> (&'static str, Vec<&'static str>, serde_json::Value) {
                 "the reference is the fault-free compilation of the same module set; which output items belong to which definition is learned by leave-one-out compilation (minus the items of its dependents), so the harness holds no copy of the compiler's naming rules",
                 "definitions whose attribution is empty (they produce no item of their own in the fault-free run) are not judged by the accounting oracle",
                 "a warning that names no definition at all (e.g. `Real types are currently unsupported!`) may account for any one otherwise unaccounted definition (bipartite matching), as the property allows a definition to be `the subject of a returned warning`",
-                "for input-level faults the locality oracle exempts the transitive dependents of the replaced definition; for buggify faults it exempts nothing but the faulted definition",
+                "for input-level faults the locality oracle exempts the transitive dependents of the replaced definition (and the accounting oracle accepts a dependent as represented when any of its items is still there: it legitimately changes shape); for buggify faults nothing but the faulted definition is exempt",
+                "formatter-faults: rustfmt is a deterministic STUB (fake-rustfmt); only VISIBLE failures are injected (death by signal mid-output, exit 1/2/3, invalid UTF-8) — a formatter that exits 0 without output lies about its success, which no caller can see through",
             ],
-            serde_json::json!({"components": components, "rule": "a case = (generated set of 1..4 modules, backend/config, 1..3 definition-level faults): buggify at the generator stage or at the validator stage (cooperative fault points in the compiler, feature verif-hooks), replacement of a type assignment by REAL / VideotexString / inverted range / MACRO, or one module that does not lex. distinct = distinct (set, fault list, backend); non-trivial = the faulted compilation returned and the accounting and locality oracles were evaluated (or, for a lexer failure, the Err discriminant)"}),
+            serde_json::json!({"components": components, "rule": "a case = (generated set of 1..4 modules, backend/config, 1..3 definition-level faults): buggify at the generator stage or at the validator stage (cooperative fault points in the compiler, feature verif-hooks), replacement of a type assignment by REAL / VideotexString / inverted range / MACRO, or one module that does not lex; formatter-faults: a case = (generated set or corpus file, RasnConfig, stand-in mode, installation state, output mode). distinct = distinct (set, fault list, backend); non-trivial = the faulted compilation returned and the accounting and locality oracles were evaluated (or, for a lexer failure, the Err discriminant)"}),
         ),
         "C11" => (
             "exploration",
             vec![
                 "the reference for every (input, backend/config) key is a canonical-order, single-threaded compile_to_string() in a pristine process of its own",
-                "interleaving granularity is hook points (verif::point) and intercepted libc calls; finer interleavings are equivalent for data-race-free code (the crate has no unsafe, atomics or locks of its own)",
-                "rustfmt is made unreachable (sanitised CARGO_HOME/CARGO) so that formatting is not an environmental variable",
-                "multi-file corpus sets are not combined (finding F1: bare-name collisions); corpus files take part one file per input",
+                "interleaving granularity is hook points (verif::point) and intercepted libc calls; in scenario fine-grain additionally every k-th heap allocation of the code under test (k in 1..64), which reaches state that a change publishes and consumes between two hook points",
+                "rustfmt is made unreachable (sanitised CARGO_HOME/CARGO) so that formatting is not an environmental variable — except in scenario formatter, where the stand-in (a STUB) is reachable in a mode that is a pure function of its input, for the reference process as well",
+                "multi-file corpus sets are combined only when an over-approximate token scan finds their names disjoint (finding F1: bare-name collisions)",
             ],
             serde_json::json!({"components": components, "rule": "a case = one simulated run: 1..16 caller threads x histories of 1..8 compile_to_string() operations over generated module sets, their siblings (same names, other bodies/defaults) and corpus files, each operation in a random arrangement (assignment permutation per module, module order, regrouping of modules into sources), literal or file delivery with benign read faults, random RasnConfig, seeded hash keys, scheduler strategy random/PCT/run-to-completion. distinct = distinct (plan signature, schedule signature) pairs; non-trivial = at least one operation was compared byte-for-byte against an Ok reference"}),
         ),
